@@ -451,6 +451,22 @@ class SymByteArray(SymSeq):
         return SymByteArray(self.items)
 
 
+OPAQUE_SLICES = [False]     # C18 harness: memoryview(buf)[:n] with symbolic n -> OpaqueView (content irrelevant)
+
+
+class OpaqueView(object):
+    """a buffer slice of SYMBOLIC length whose content is irrelevant (only len/truthiness are used)"""
+
+    def __init__(self, symlen):
+        self.symlen = symlen
+
+    def __bool__(self):
+        return bool(self.symlen != 0)
+
+    def __len__(self):
+        raise EngineLimit('len() of an opaque symbolic-length view')
+
+
 class SymMemoryView(SymSeq):
     """a *view* (no copy) on a SymByteArray: reads go to the base at access time"""
 
@@ -465,6 +481,11 @@ class SymMemoryView(SymSeq):
 
     def _get(self):
         return self.base.items[self.start:self.stop]
+
+    def __getitem__(self, k):
+        if OPAQUE_SLICES[0] and isinstance(k, slice) and isinstance(k.stop, SymInt) and k.start in (None, 0):
+            return OpaqueView(k.stop)
+        return SymSeq.__getitem__(self, k)
 
     def _slice(self, k):
         n = self.stop - self.start
